@@ -2,6 +2,8 @@ package main
 
 import (
 	"encoding/json"
+	"go/ast"
+	"go/types"
 	"flag"
 	"fmt"
 	"os"
@@ -104,6 +106,8 @@ func cmdDump(args []string) int {
 	fs := flag.NewFlagSet("dump", flag.ExitOnError)
 	budget := fs.Int("budget", 10000, "solver budget ms")
 	showQ := fs.String("show", "", "print the query of obligations whose name contains this")
+	onlyBad := fs.Bool("bad", false, "print only failed obligations")
+	doReplay := fs.Bool("replay", false, "replay sat results against the real code")
 	fs.Parse(args)
 	rest := fs.Args()
 	if len(rest) < 2 {
@@ -125,7 +129,23 @@ func cmdDump(args []string) int {
 	}
 	p := eng.pkgs[ip]
 	out := filepath.Join(verifDir(), "out", "dump")
-	for _, key := range rest[1:] {
+	keys := rest[1:]
+	if len(keys) == 1 && keys[0] == "ALL" {
+		keys = nil
+		for _, f := range p.Syntax {
+			for _, d := range f.Decls {
+				if fd, ok := d.(*ast.FuncDecl); ok && fd.Body != nil {
+					if obj, ok := p.TypesInfo.Defs[fd.Name].(*types.Func); ok {
+						if strings.HasSuffix(eng.fset.Position(fd.Pos()).Filename, "_test.go") {
+							continue
+						}
+						keys = append(keys, calleeKey(obj))
+					}
+				}
+			}
+		}
+	}
+	for _, key := range keys {
 		res, err := eng.verifyFunc(p, key, false)
 		if err != nil {
 			fmt.Println("ERROR", err)
@@ -148,7 +168,14 @@ func cmdDump(args []string) int {
 			if o.Result != o.Expect {
 				mark = "!!"
 			}
+			if *onlyBad && (mark == "  " || o.Group == "canary") {
+				continue
+			}
 			fmt.Printf(" %s %-8s %-7s %5.2fs %-8s %s  [%s:%d] %s\n", mark, o.Group, o.Result, o.Seconds, o.Solver, o.Name, shortPath(o.Pos.Filename), o.Pos.Line, oneLine(o.Detail))
+			if *doReplay && o.Result == "sat" && o.Expect == "unsat" {
+				ok, out := tryReplay(eng, res, o)
+				fmt.Printf("      REPLAY confirmed=%v: %s\n", ok, strings.ReplaceAll(out, "\n", "\n        "))
+			}
 			if *showQ != "" && strings.Contains(o.Name, *showQ) {
 				fmt.Println(finalQuery(res.Ctx, o.Query))
 				if o.Model != "" {
